@@ -1,7 +1,8 @@
 (* C14 — pinned statements: columns declared unique really are unique (propagation through
    projections).  [fn_meta] is regenerated from Function::is_bijection on every run, so
    [C14_no_lossy_bijection] is re-proved against what the code lists now. *)
-From QV Require Import Rel.Unique Rel.UniqueProofs Generated.FnMeta Corr.C14.
+From QV Require Import Rel.Unique Rel.UniqueProofs Generated.FnMeta Corr.C14 Rel.Rows Rel.RowsProofs Rel.Cols Rel.ColsProofs.
+From Coq Require Import ZArith.
 From Coq Require Import List.
 Open Scope string_scope.
 
@@ -24,6 +25,55 @@ Theorem C14_rounding_bijections_refuted :
   exists f, is_bij f = true /\ rounding f = true.
 Proof. exists "Exp". vm_compute. split; reflexivity. Qed.
 
+(* joins (Join::schema): a column of the left input with distinct non-null values keeps them distinct in
+   the rows of every join kind when each left row has at most one match (the right key is unique), and
+   symmetrically; without that hypothesis the flag would be wrong *)
+Theorem C14_join_left_unique : forall k P nl nr L R i,
+  (forall l, In l L -> length l = nl) -> (i < nl)%nat ->
+  (forall l, In l L -> (length (filter (P l) R) <= 1)%nat) ->
+  NoDup (colvals i L) -> NoDup (colvals i (join_rows P k nl nr L R)).
+Proof. exact join_left_unique. Qed.
+
+Theorem C14_join_right_unique : forall k P nl nr L R j,
+  (forall l, In l L -> length l = nl) -> (forall r, In r R -> length r = nr) ->
+  (forall r, In r R -> (length (filter (fun l => P l r) L) <= 1)%nat) ->
+  NoDup (colvals j R) -> NoDup (colvals (nl + j) (join_rows P k nl nr L R)).
+Proof. exact join_right_unique. Qed.
+
+Theorem C14_join_needs_unique_key : exists P L R,
+  NoDup (colvals 0 L) /\ ~ NoDup (colvals 0 (join_rows P JInner 1 1 L R)).
+Proof. exact join_left_unique_needs_unique_key. Qed.
+
+(* set operations (Set::schema keeps no flag): UNION removes duplicate rows, not duplicate keys *)
+Theorem C14_union_unique_refuted : exists L R,
+  NoDup (colvals 0 L) /\ NoDup (colvals 0 R) /\ ~ NoDup (colvals 0 (union_rows false L R)).
+Proof. exact union_unique_refuted. Qed.
+
+(* grouping (Reduce::schema_aggregate): the single grouping key, and FIRST of a unique input column *)
+Theorem C14_group_key_unique : forall l, NoDup (zdedup l).
+Proof. exact group_key_unique. Qed.
+
+Theorem C14_first_of_unique_column : forall i (G : list (list (list (option Z)))),
+  NoDup (colvals i (concat G)) -> NoDup (colvals i (firsts G)).
+Proof. exact first_of_unique_column. Qed.
+
+(* the property on the column-level fragment: the flags are computed by the rules of Map::schema_exprs,
+   Join::schema, Set::schema and Reduce::schema_aggregate ([uflags], compared with the flags qrlew declares
+   on every generated expression), the rows by the row-level evaluator (compared with SQLite); if the base
+   tables honour their constraints, every column flagged unique holds pairwise distinct non-null values *)
+Theorem C14_fragment_unique_sound : forall e, wfu e ->
+  forall i, nth i (uflags e) false = true -> NoDup (colvals i (rows_c e)).
+Proof. exact unique_sound. Qed.
+
+(* non-vacuity: orders joined with users on the users' key keeps the orders' key unique and not the users' *)
+Example C14_example_fragment :
+  let users := QTable (0, 30) [true; false] [[Some 1; Some 20]; [Some 2; Some 30]] in
+  let orders := QTable (0, 60) [true; false] [[Some 10; Some 1]; [Some 11; Some 1]] in
+  let e := QJoin JLeft 1 0 (fun _ _ => true) orders users in
+  uflags e = [true; false; false; false] /\
+  rows_c e = [[Some 10; Some 1; Some 1; Some 20]; [Some 11; Some 1; Some 1; Some 20]].
+Proof. vm_compute. split; reflexivity. Qed.
+
 (* non-vacuity: md5(cast_as_text(exp(a))) reduces to column a through three listed functions *)
 Example C14_example :
   let e := UFun "Md5" [UFun "CastAsText" [UFun "Exp" [UCol 0]]] in
@@ -36,3 +86,10 @@ Print Assumptions C14_no_lossy_bijection.
 Print Assumptions C14_chain_listed.
 Print Assumptions C14_unique_preserved.
 Print Assumptions C14_rounding_bijections_refuted.
+Print Assumptions C14_join_left_unique.
+Print Assumptions C14_join_right_unique.
+Print Assumptions C14_join_needs_unique_key.
+Print Assumptions C14_union_unique_refuted.
+Print Assumptions C14_group_key_unique.
+Print Assumptions C14_first_of_unique_column.
+Print Assumptions C14_fragment_unique_sound.
